@@ -23,7 +23,7 @@ Text == T.code
 Compressed == Len(A) >= 8 /\ SubSeq(A, 1, 4) = <<58, 99, 58, 0>>
 DeclLen == A[5] * 256 + A[6]
 PixelStep ==
-  IF k > Len(T.pixels) THEN phase' = "code" /\ UNCHANGED <<tid, k, p, out, verdict>>
+  IF k > Len(T.pixels) THEN (IF T.focus = "C16" THEN Stop("ok") ELSE phase' = "code" /\ UNCHANGED <<tid, k, p, out, verdict>>)
   ELSE LET px == T.pixels[k] b == ByteAt(px.i) IN
     IF px.i <= 32768 /\ (px.r % 4 # (b \div 16) % 4 \/ px.g % 4 # (b \div 4) % 4 \/ px.b % 4 # b % 4 \/ px.a % 4 # b \div 64)
        THEN Stop("pixel-bits")
